@@ -2,15 +2,21 @@
    emitted OVER (...), and what each side means.
 
    (1) `frame_of`         mirror of semantic/resolver/transforms.rs, "window": rows / range / rolling /
-                          expanding -> (kind, start, end), incl. the empty-range defaulting;
+                          expanding -> (kind, start, end), or the compile error raised for a `rows` /
+                          `range` argument that is an empty range other than the default spelling 0..-1
+                          (/repo 7b31f75);
    (2) `emit_frame`       mirror of sql/gen_expr.rs translate_windowed + try_into_window_frame: the frame
                           clause that is emitted, `None` when it is elided (function without
-                          window_frame=true, or frame equal to the code's default frame); bound signs;
+                          window_frame=true, or frame equal to the code's default frame); bound signs
+                          (a negative bound z is written |z| PRECEDING: unsigned_abs, /repo 222f71a);
    (3) `sql_frame_segment` SPECIFICATION of SQL: the rows a frame clause selects around row i of a sorted
                           partition, incl. the IMPLICIT default frame of an OVER without frame clause
                           (with ORDER BY: RANGE BETWEEN UNBOUNDED PRECEDING AND CURRENT ROW -- peers of the
                           current row included; without: the whole partition);
-   (4) `prql_segment`     the documented meaning: Rel.v `seg`.
+   (4) `prql_segment`     the documented meaning: Rel.v `seg`;
+   (5) `scope_*`          mirror of the partition / frame bookkeeping of semantic/resolver/flatten.rs: which
+                          partition and frame a column definition inside nested group / window bodies is
+                          handed (/repo 592b6f8: leaving a nested body restores the enclosing ones).
    Executable definitions only; the theorems are in Proofs/FrameProofs.v, stated in Props/C04.v. *)
 From Coq Require Import List ZArith NArith Bool.
 From PV Require Import Lib.ListX Model.Rel.
@@ -35,16 +41,38 @@ Definition default_rolling : Z := 0.
 Definition range_is_empty (r : bounds) : bool :=
   match r with (Some s, Some e) => e <? s | _ => false end.
 
-Definition frame_of (a : wargs) : frame3 :=
-  let rows := match w_rows a with Some r => r | None => default_rows end in
-  let range := match w_range a with Some r => r | None => default_range end in
-  let expanding := match w_expanding a with Some b => b | None => default_expanding end in
-  let rolling := match w_rolling a with Some n => n | None => default_rolling end in
+Definition oz_eqb (a b : option Z) : bool :=
+  match a, b with None, None => true | Some x, Some y => x =? y | _, _ => false end.
+Definition bounds_eqb (x y : bounds) : bool := oz_eqb (fst x) (fst y) && oz_eqb (snd x) (snd y).
+
+(* the spelling that stands for "argument not given": the literal `(Some(0), Some(-1))` of transforms.rs
+   (Gen/GenWindow.v carries what the file says now; Props/C04.v compares it with std.prql's defaults) *)
+Definition not_given : bounds := (Some 0, Some (-1)).
+
+(* `range_is_empty(r) && *r != (Some(0), Some(-1))`: an empty range that is not the "not given" spelling *)
+Definition rejected_range (r : bounds) : bool := range_is_empty r && negb (bounds_eqb r not_given).
+
+(* the if/else chain of the arm (unchanged by 7b31f75) *)
+Definition frame_chain (rows range : bounds) (expanding : bool) (rolling : Z) : frame3 :=
   if expanding then (KRows, None, Some 0)
   else if 0 <? rolling then (KRows, Some (- rolling + 1), Some 0)
   else if negb (range_is_empty rows) then (KRows, fst rows, snd rows)
   else if negb (range_is_empty range) then (KRange, fst range, snd range)
   else (KRows, None, None).
+
+(* result of the arm: a frame, or the error "window: `<arg>` is an empty range (its start is after its end)";
+   the loop looks at `rows` first, and it runs before expanding / rolling are consulted *)
+Inductive warg := ARows | ARange.
+Inductive wresult := WFrame (f : frame3) | WEmptyRange (arg : warg).
+
+Definition frame_of (a : wargs) : wresult :=
+  let rows := match w_rows a with Some r => r | None => default_rows end in
+  let range := match w_range a with Some r => r | None => default_range end in
+  let expanding := match w_expanding a with Some b => b | None => default_expanding end in
+  let rolling := match w_rolling a with Some n => n | None => default_rolling end in
+  if rejected_range rows then WEmptyRange ARows
+  else if rejected_range range then WEmptyRange ARange
+  else WFrame (frame_chain rows range expanding rolling).
 
 Definition no_args : wargs := mk_wargs None None None None.
 Definition args_rows (a b : option Z) : wargs := mk_wargs (Some (a, b)) None None None.
@@ -59,20 +87,26 @@ Definition no_window : frame3 := (KRows, None, None).
 Inductive sbound := SPreceding (n : option Z) | SCurrentRow | SFollowing (n : option Z).   (* None = UNBOUNDED *)
 Record sframe := mk_sframe { f_units : wkind; f_start : sbound; f_end : sbound }.
 
-(* try_into_window_frame / parse_bound:  0 => CURRENT ROW, 1.. => n FOLLOWING, _ => (-n) PRECEDING *)
+(* try_into_window_frame / parse_bound:  0 => CURRENT ROW, 1.. => n FOLLOWING, _ => |n| PRECEDING
+   (`as_int.unsigned_abs()`: total on i64, where `-as_int` overflowed for i64::MIN) *)
 Definition parse_bound (z : Z) : sbound :=
-  if z =? 0 then SCurrentRow else if 1 <=? z then SFollowing (Some z) else SPreceding (Some (- z)).
+  if z =? 0 then SCurrentRow else if 1 <=? z then SFollowing (Some z) else SPreceding (Some (Z.abs z)).
 Definition start_bound (b : option Z) : sbound := match b with Some z => parse_bound z | None => SPreceding None end.
 Definition end_bound (b : option Z) : sbound := match b with Some z => parse_bound z | None => SFollowing None end.
 
 (* translate_windowed: the frame the code treats as "default" and therefore omits *)
 Definition default_frame (sorted : bool) : frame3 := if sorted then (KRange, None, Some 0) else (KRows, None, None).
 
-Definition oz_eqb (a b : option Z) : bool :=
-  match a, b with None, None => true | Some x, Some y => x =? y | _, _ => false end.
 Definition wkind_eqb (a b : wkind) : bool := match a, b with KRows, KRows | KRange, KRange => true | _, _ => false end.
 Definition frame3_eqb (f g : frame3) : bool :=
   match f, g with (k, a, b), (k', a', b') => wkind_eqb k k' && oz_eqb a a' && oz_eqb b b' end.
+
+Definition wresult_eqb (r s : wresult) : bool :=
+  match r, s with
+  | WFrame f, WFrame g => frame3_eqb f g
+  | WEmptyRange ARows, WEmptyRange ARows | WEmptyRange ARange, WEmptyRange ARange => true
+  | _, _ => false
+  end.
 
 Definition to_sframe (f : frame3) : sframe :=
   match f with (k, a, b) => mk_sframe k (start_bound a) (end_bound b) end.
@@ -220,8 +254,6 @@ Definition sframe_eqb (f g : sframe) : bool :=
   wkind_eqb (f_units f) (f_units g) && sbound_eqb (f_start f) (f_start g) && sbound_eqb (f_end f) (f_end g).
 Definition osframe_eqb (f g : option sframe) : bool :=
   match f, g with None, None => true | Some x, Some y => sframe_eqb x y | _, _ => false end.
-Definition bounds_eqb (x y : bounds) : bool := oz_eqb (fst x) (fst y) && oz_eqb (snd x) (snd y).
-
 (* finite domains the generated code is compared on *)
 Definition small_bounds : list (option Z) := [None; Some (-3); Some (-2); Some (-1); Some 0; Some 1; Some 2; Some 3].
 Definition small_ranges : list bounds := flat_map (fun a => map (fun b => (a, b)) small_bounds) small_bounds.
@@ -232,3 +264,92 @@ Definition small_rollings : list Z := [-2; -1; 0; 1; 2; 3; 4].
 Definition kind_code (k : wkind) : N := match k with KRows => 0%N | KRange => 1%N end.
 Definition oz_list (o : option Z) : list Z := match o with Some z => [z] | None => [] end.
 Definition frame3_data (f : frame3) : N * list Z * list Z := match f with (k, a, b) => (kind_code k, oz_list a, oz_list b) end.
+(* result of the `window` arm as plain data: (0, frame) | (1 = `rows` rejected / 2 = `range` rejected, dummy) *)
+Definition wresult_data (r : wresult) : N * (N * list Z * list Z) :=
+  match r with
+  | WFrame f => (0%N, frame3_data f)
+  | WEmptyRange ARows => (1%N, (0%N, [], []))
+  | WEmptyRange ARange => (2%N, (0%N, [], []))
+  end.
+(* the frame of a result; a rejected program has none (the callers compare `wresult_data` first) *)
+Definition wresult_frame (r : wresult) : frame3 := match r with WFrame f => f | WEmptyRange _ => no_window end.
+
+(* ---------------------------------------------------------------- (5) partition / frame scoping (flatten.rs) *)
+(* A pipeline as the Flattener sees it, reduced to what decides the partition and frame a column definition
+   is handed: column definitions (tagged), group bodies, window bodies, and the relational argument of
+   join / append / loop.  Group keys are opaque tokens. *)
+Inductive sitem :=
+| SCol (tag : N)
+| SGroup (by_ : N) (body : list sitem)
+| SWindow (f : frame3) (body : list sitem)
+| SSub (body : list sitem).
+
+Definition scope_out := (N * option N * frame3)%type.          (* tag, partition, frame *)
+
+(* what the code does with its `partition` / `window` fields when it leaves a body *)
+Inductive exit_policy := ExitRestore | ExitReset.
+Record scope_policy := mk_scope_policy {
+  p_group_exit : exit_policy;          (* Group: `self.partition = outer_partition` vs `= None` *)
+  p_window_exit : exit_policy;         (* Window: `self.window = outer_window` vs `= WindowFrame::default()` *)
+  p_sub_isolates_partition : bool;     (* join/append/loop argument: partition taken away and put back *)
+  p_sub_isolates_window : bool }.      (* ... window frame taken away and put back *)
+
+(* flatten.rs at /repo HEAD (592b6f8) *)
+Definition flatten_policy : scope_policy := mk_scope_policy ExitRestore ExitRestore true true.
+(* ... and before 592b6f8, for the non-vacuity examples *)
+Definition old_flatten_policy : scope_policy := mk_scope_policy ExitReset ExitReset false false.
+
+Definition exit_policy_eqb (a b : exit_policy) : bool :=
+  match a, b with ExitRestore, ExitRestore | ExitReset, ExitReset => true | _, _ => false end.
+Definition scope_policy_eqb (a b : scope_policy) : bool :=
+  exit_policy_eqb (p_group_exit a) (p_group_exit b) && exit_policy_eqb (p_window_exit a) (p_window_exit b)
+  && Bool.eqb (p_sub_isolates_partition a) (p_sub_isolates_partition b) && Bool.eqb (p_sub_isolates_window a) (p_sub_isolates_window b).
+
+Record fstate := mk_fstate { st_part : option N; st_win : frame3 }.
+Definition fstate0 : fstate := mk_fstate None no_window.        (* Flattener::default() *)
+
+(* the imperative walk: state in, (outputs, state) out -- the fields are saved / overwritten / written back as
+   the code does *)
+Fixpoint scope_run_item (pol : scope_policy) (i : sitem) (st : fstate) {struct i} : list scope_out * fstate :=
+  let run_list := fix run_list (l : list sitem) (st : fstate) {struct l} : list scope_out * fstate :=
+    match l with
+    | [] => ([], st)
+    | x :: t => let (o1, st1) := scope_run_item pol x st in let (o2, st2) := run_list t st1 in (o1 ++ o2, st2)
+    end in
+  match i with
+  | SCol t => ([(t, st_part st, st_win st)], st)
+  | SGroup by_ body =>
+      let outer := st_part st in
+      let (o, st') := run_list body (mk_fstate (Some by_) (st_win st)) in
+      (o, mk_fstate (match p_group_exit pol with ExitRestore => outer | ExitReset => None end) (st_win st'))
+  | SWindow f body =>
+      let outer := st_win st in
+      let (o, st') := run_list body (mk_fstate (st_part st) f) in
+      (o, mk_fstate (st_part st') (match p_window_exit pol with ExitRestore => outer | ExitReset => no_window end))
+  | SSub body =>
+      let (o, st') := run_list body (mk_fstate (if p_sub_isolates_partition pol then None else st_part st)
+                                               (if p_sub_isolates_window pol then no_window else st_win st)) in
+      (o, mk_fstate (if p_sub_isolates_partition pol then st_part st else st_part st')
+                    (if p_sub_isolates_window pol then st_win st else st_win st'))
+  end.
+Fixpoint scope_run (pol : scope_policy) (l : list sitem) (st : fstate) : list scope_out * fstate :=
+  match l with
+  | [] => ([], st)
+  | x :: t => let (o1, st1) := scope_run_item pol x st in let (o2, st2) := scope_run pol t st1 in (o1 ++ o2, st2)
+  end.
+
+(* the documented meaning: lexical scoping -- a column definition is evaluated per group of the innermost
+   enclosing `group`, over the segment of the innermost enclosing `window`; a relational argument is a pipeline
+   of its own *)
+Fixpoint scope_spec_item (part : option N) (fr : frame3) (i : sitem) {struct i} : list scope_out :=
+  match i with
+  | SCol t => [(t, part, fr)]
+  | SGroup by_ body => flat_map (scope_spec_item (Some by_) fr) body
+  | SWindow f body => flat_map (scope_spec_item part f) body
+  | SSub body => flat_map (scope_spec_item None no_window) body
+  end.
+Definition scope_spec (part : option N) (fr : frame3) (l : list sitem) : list scope_out := flat_map (scope_spec_item part fr) l.
+
+(* plain data for the correspondence stream *)
+Definition scope_out_data (o : scope_out) : N * list N * (N * list Z * list Z) :=
+  match o with (t, p, f) => (t, match p with Some b => [b] | None => [] end, frame3_data f) end.
